@@ -8442,8 +8442,17 @@ class Outer_Shared_Do_Construct(BlockBase):  # R839
     def match(reader):
         content = []
         for cls in [Label_Do_Stmt, Do_Body, Shared_Term_Do_Construct]:
-            obj = cls(reader)
-            if obj is None:  # todo: restore reader
+            try:
+                obj = cls(reader)
+            except NoMatchError:
+                # An alternatives-only rule (e.g. Shared_Term_Do_Construct)
+                # signals "no match" by raising rather than returning None.
+                obj = None
+            if obj is None:
+                # No match: give back everything consumed so far so that
+                # the caller sees the reader unchanged.
+                for prev in reversed(content):
+                    prev.restore_reader(reader)
                 return
             content.append(obj)
         return (content,)
@@ -8478,8 +8487,17 @@ class Inner_Shared_Do_Construct(BlockBase):  # R841
     def match(reader):
         content = []
         for cls in [Label_Do_Stmt, Do_Body, Do_Term_Shared_Stmt]:
-            obj = cls(reader)
-            if obj is None:  # todo: restore reader
+            try:
+                obj = cls(reader)
+            except NoMatchError:
+                # An alternatives-only rule (e.g. Do_Term_Shared_Stmt)
+                # signals "no match" by raising rather than returning None.
+                obj = None
+            if obj is None:
+                # No match: give back everything consumed so far so that
+                # the caller sees the reader unchanged.
+                for prev in reversed(content):
+                    prev.restore_reader(reader)
                 return
             content.append(obj)
         return (content,)
